@@ -47,13 +47,15 @@ import (
 // max ticks/byte on inputs of >= 8 bytes; the bound below keeps >= 4x headroom
 // over both.
 const (
-	tickC  = 400  // ticks per input byte
-	tickC0 = 2000 // constant part
-	// hard step cap for "Parse returns": no enumerated input is longer than
-	// 2^17 bytes; a Parse still running after this many ticks is reported as
-	// non-terminating (a step count, not a wall-clock limit).
-	tickHardCap = int64(4e10)
-	ratioLimit  = 2.5
+	tickC  = 100 // ticks per input byte   (observed maximum 23.7 on inputs of >= 8 bytes)
+	tickC0 = 500 // constant part          (observed maximum 64 on inputs of <= 2 bytes)
+	// "Parse returns": a Parse still running after tickCapFactor times its
+	// linear bound plus tickCapBase ticks is reported as non-terminating (a step
+	// count, not a wall-clock limit). The quadratic families found on the
+	// unchanged tree stay below 10x their linear bound at n = 2^16.
+	tickCapFactor = 100
+	tickCapBase   = int64(2e8)
+	ratioLimit    = 2.5
 )
 
 // ---- inputs ----
@@ -679,10 +681,10 @@ func startWatchdog(onCap func(where, input string, ticks int64)) {
 				lastTicks, stuckSince = -1, time.Now()
 				continue
 			}
-			if now-t0 > tickHardCap {
-				c12CurMu.Lock()
-				w, in := c12CurWhere, c12CurInput
-				c12CurMu.Unlock()
+			c12CurMu.Lock()
+			w, in := c12CurWhere, c12CurInput
+			c12CurMu.Unlock()
+			if now-t0 > tickCapFactor*(int64(tickC)*int64(len(in))+tickC0)+tickCapBase {
 				onCap(w, in, now-t0)
 			}
 			if now != lastTicks {
@@ -755,9 +757,13 @@ func TestC12(t *testing.T) {
 		return
 	}
 	run := ev.New("C12", "exploration")
+	startWatchdog(func(where, input string, ticks int64) {
+		run.Violation("nontermination:tick-cap", fmt.Sprintf("Parse still running after %d ticks on %d bytes (%s): %s", ticks, len(input), where, strconv.QuoteToASCII(clip(input, 200))), map[string]any{"family": where, "input": clip(input, 4096)})
+		os.Exit(1)
+	})
 	// the build must be the instrumented one
 	before := schema.VerifTicks
-	schema.Parse("class A implements Namespace {}")
+	tickedParse("sanity", "class A implements Namespace {}")
 	if schema.VerifTicks == before {
 		fmt.Println("INFRA-ERROR ticks not instrumented: build this package through `/verif/check C12` (variant ticks)")
 		t.Fatal("ticks not instrumented")
@@ -771,10 +777,6 @@ func TestC12(t *testing.T) {
 			t.Fatalf("INFRA-ERROR cannot read replay %s", rf)
 		}
 		rep := &c12Report{Evals: map[string]int64{}, Vios: map[string]*c12Vio{}}
-		startWatchdog(func(where, input string, ticks int64) {
-			fmt.Printf("VIOLATION property=C12 replay=%s\n  signature=nontermination:tick-cap\n", rf)
-			os.Exit(1)
-		})
 		if strings.HasPrefix(rec.Replay.Family, "geo/") { // large inputs are stored clipped: regenerate
 			for _, g := range geoFamilies() {
 				if "geo/"+g.name == rec.Replay.Family && rec.Replay.Index > 0 {
@@ -823,10 +825,6 @@ func TestC12(t *testing.T) {
 
 	// (iv) geometric families, in this process while the shards run
 	total := &c12Report{Evals: map[string]int64{}, Vios: map[string]*c12Vio{}}
-	startWatchdog(func(where, input string, ticks int64) {
-		run.Violation("nontermination:tick-cap", fmt.Sprintf("Parse still running after %d ticks on %d bytes (%s)", ticks, len(input), where), map[string]any{"family": where, "input": clip(input, 4096)})
-		os.Exit(1)
-	})
 	hs := newHandlers(t)
 	maxExp := 14
 	if ev.Thorough() {
